@@ -654,6 +654,14 @@ def r11b_exit_status(ctx):
             else:
                 r.violate(key, "the text-format loop over the unused list at %s can continue without printing an element: text and "
                                "json outputs list different entries" % ctx.bin.span_str(c["span"]))
+    # json format (and any iterator pipeline over the list): no adaptor that can drop elements
+    from .r7 import _iter_sources
+    for bb, c in f.calls():
+        m = re.search(r"iter::Iterator::(filter|filter_map|skip|take|step_by|skip_while|take_while|map_while|flat_map|flatten|dedup\w*)$", c.get("fn") or "")
+        if m and c["args"] and v in _iter_sources(f, c["args"][0]):
+            r.violate("R11b|output drops entries|%s" % m.group(1), "the unused list is passed through `%s` at %s before it is printed: the "
+                      "formats list different entries, and the exit status (taken from the full list) disagrees with the output" % (
+                          m.group(1), ctx.bin.span_str(c["span"])))
     r.counts["iterations_of_unused"] = len(set(loops) | set(iters))
     r.floor("iterations over the unused list (one per output format)", len(set(loops) | set(iters)), 2)
     return r
@@ -1037,4 +1045,65 @@ def r8e_text_fallback_on_every_miss(ctx):
         else:
             r.ok(sample={"classifier": f.id.split("::")[-1], "fallback_calls": len(fb)})
     r.floor("completion-context classifiers with a text fallback", n, 1)
+    return r
+
+
+def r8f_proximity_precedence(ctx):
+    r = Result("R8f", "a function that ranks a fixture by proximity (it takes a FixtureDefinition and the current file and returns an "
+                      "integer) tests `same file` before it looks at the plugin / third-party flags (the file_path comparison "
+                      "dominates every read of is_plugin / is_third_party): a file's own fixtures rank first whatever the file "
+                      "is -- also when the file being edited is itself a plugin module or lies under site-packages")
+    crate = ctx.bin
+    DEF = "fixtures::types::FixtureDefinition"
+    n = 0
+    for f in crate.real_fns():
+        if f.kind not in ("fn", "method") or f.ret not in ("u8", "u16", "u32", "usize", "i32", "i64", "u64"):
+            continue
+        tys = [f.local_ty(i) for i in range(1, f.argc + 1)]
+        if not any(DEF in t for t in tys) or not any("std::path::Path" in t for t in tys):
+            continue
+        dom = f.dominators()
+        cmp_blocks = []
+        for bb, c in f.calls():
+            if c.get("fn") in ("std::cmp::PartialEq::eq", "std::cmp::PartialEq::ne"):
+                for a in c["args"]:
+                    p = op_place(a)
+                    l = op_local(a)
+                    hit = False
+                    if p is not None and any(o == DEF and nm == "file_path" for o, nm in proj_fields(place_projs(p))):
+                        hit = True
+                    elif l is not None:
+                        for d in f.whole_defs(l):
+                            if d[0] == "assign" and d[3][0] == "ref" and any(o == DEF and nm == "file_path" for o, nm in proj_fields(place_projs(d[3][2]))):
+                                hit = True
+                    if hit:
+                        cmp_blocks.append(bb)
+        flag_blocks = []
+        for bb, b in enumerate(f.blocks):
+            places = []
+            for s_ in b["s"]:
+                if s_[0] == "=":
+                    rv = s_[2]
+                    if rv[0] == "use":
+                        places.append(op_place(rv[1]))
+                    elif rv[0] == "ref":
+                        places.append(rv[2])
+                    elif rv[0] == "agg":
+                        places += [op_place(o) for o in rv[2]]
+            t = b["t"]
+            if t[0] == "switch":
+                places.append(op_place(t[1]))
+            for p in places:
+                if p is not None and any(o == DEF and nm in ("is_plugin", "is_third_party") for o, nm in proj_fields(place_projs(p))):
+                    flag_blocks.append(bb)
+        if not cmp_blocks or not flag_blocks:
+            continue
+        n += 1
+        key = "R8f|%s" % f.id
+        if all(any(cb in dom.get(fb, set()) for cb in cmp_blocks) for fb in flag_blocks):
+            r.ok(sample={"ranking": f.id.split("::")[-1], "same_file_first": True})
+        else:
+            r.violate(key, "%s looks at is_plugin / is_third_party before (or without) the same-file test: the current file's own "
+                           "fixtures are ranked by their origin flags" % f.id.split("::")[-1])
+    r.floor("proximity ranking functions", n, 1)
     return r
